@@ -12,7 +12,7 @@ SPEC = {
         ("InMemMap.nodes_closeto(foreach: exact set, tuples, pre-filter complete, sort, truncate)", 'inmem_nodes', r'.'),
         ("InMemMap.edges_closeto(foreach: exact set per scanned start node, tuples, sort, truncate)", 'inmem_edges', r'.')],
     'bounded': [
-        ('both-backends-vs-exhaustive-scan', map_suites.case_C11, 600, 12000,
+        ('both-backends-vs-exhaustive-scan', map_suites.case_C11, 900, 20000,
          "integer-labelled graphs of 3-6 nodes (random/grid/chain/cycle/star, optional long edge with both ends far away) at unit scale, "
          "~1e7 ('projected metres') and in degrees (lat-lon metric, 5 anchors incl. southern hemisphere); 3 queries per case: location on/near the "
          "map (optionally with a time component), radius in {0,.3,1,2.5,50}*unit, max_elmt in {None,1,3}; non-trivial = some node or edge lies within the radius",
